@@ -361,6 +361,7 @@ def hazards(facts, fams=None):
         if fn.get("rect"):
             used = set()
             walk(fn["body"], lambda x: used.add(x.get("d")) if x.get("k") == "Ref" else None)
+            walk(fn["body"], lambda x: used.update(x.get("uses") or []) if x.get("k") == "Throw" else None)      # read by an error message
             walk(fn.get("inits") or [], lambda x: used.add(x.get("d")) if x.get("k") == "Ref" else None)
             for pm in fn.get("params") or []:
                 if pm.get("n") and pm.get("d") not in used:
